@@ -347,10 +347,21 @@ def sensRun [DecidableEq τ] (d : Decl τ) (pub : List τ) : SimState τ → Lis
     | .ok s' => sensRun d pub s' ops
     | .error e => .error e
 
+/-- `ReducedMechanisticModel.simulate` uses the stored value buffer as scratch space:
+    `self._fixed_params_values[~mask] = parameters` overwrites the entries at the *free* positions;
+    the mask and the entries at the fixed positions are left alone -/
+def bufferAfter : List (Bool × α) → List α → List (Bool × α)
+  | [], _ => []
+  | (true, v) :: m, ps => (true, v) :: bufferAfter m ps
+  | (false, v) :: m, [] => (false, v) :: bufferAfter m []
+  | (false, _) :: m, p :: ps => (false, p) :: bufferAfter m ps
+
 /-- operations on a `ReducedMechanisticModel` -/
 inductive RedOp (τ α : Type) where
   | enable
   | disable
+  /-- `simulate(parameters, times)` -/
+  | simulate (params : List α)
   /-- `fix_parameters(...)` with the resulting mask / values (`none` = everything free again) -/
   | fix (newFixed : Option (List (Bool × α)))
   | setOutputs (outs : List τ)
@@ -369,6 +380,10 @@ def redStep [DecidableEq τ] (d : Decl τ) (pub : List τ) (s : RedState τ α) 
     | .ok q => .ok { s with sensOn := true, request := q }
     | .error e => .error e
   | .disable => .ok { s with sensOn := false, request := none }
+  | .simulate ps =>
+    match Reduced.fullVector { names := pub, fixed := s.fixed } ps with
+    | .error e => .error e
+    | .ok _ => .ok { s with fixed := s.fixed.map (fun m => bufferAfter m ps) }
   | .fix nf =>
     if s.sensOn then
       match Reduced.enableSens false { names := pub, fixed := nf } s.tables pub with
